@@ -170,6 +170,9 @@ def shape_queries():
                                       ["strtol.0:3", "bidib_string_to_uid.0:9", "verif_yaml_word.1:%d" % (len(DICTS[n]) + 2)],
                             unwind_fn={"bidib_state_free.*": 4},   # at most 2 elements per list after <= 5 events (+1 earlier)
                             leak=bool(full), tier=tier, nowitness=(len(sh) > 2),
+                            # thorough-only shapes: a few (e.g. "S [ { S" on the accessory parsers, "S [ x" on the train parser)
+                            # run for more than 20 minutes; they are stretch goals with a 5 minute limit
+                            required=(tier == "quick"), timeout=(None if tier == "quick" else 300),
                             note="event types %s (S scalar, q/p sequence start/end, m/w mapping start/end, X alias), contents symbolic%s"
                                  % (sh, "; then bidib_state_free + leak check" if full else "")))
     return qs
